@@ -170,6 +170,16 @@ func (e *Encoder) writeList(data interface{}) (int, error) {
 	return vv.Len(), nil
 }
 
+// listElem converts a decoded element to the element type of the list being
+// built; a null element is the zero value of that type
+func listElem(elemType reflect.Type, item interface{}) reflect.Value {
+	dest := reflect.New(elemType).Elem()
+	if item != nil {
+		setMapEntryPart(dest, EnsureRawValue(item))
+	}
+	return dest
+}
+
 //ReadList read list
 func (d *Decoder) ReadList(flag int32) (interface{}, error) {
 	tag, err := getTag(d.reader, flag)
@@ -247,22 +257,17 @@ func (d *Decoder) readTypedList(tag byte) (interface{}, error) {
 			return nil, newCodecError("readTypedList", err)
 		}
 
-		if item == nil {
-			// a null element keeps the zero value of the element type
-			if isVariableArr {
-				aryValue = reflect.Append(aryValue, reflect.Zero(aryType.Elem()))
-				holder.change(aryValue)
-			}
+		if isVariableArr {
+			aryValue = reflect.Append(aryValue, listElem(aryType.Elem(), item))
+			holder.change(aryValue)
 			continue
 		}
 
-		v := EnsureRawValue(item)
-		if isVariableArr {
-			aryValue = reflect.Append(aryValue, v)
-			holder.change(aryValue)
-		} else {
-			SetValue(aryValue.Index(j), v)
+		if item == nil {
+			// a null element keeps the zero value of the element type
+			continue
 		}
+		SetValue(aryValue.Index(j), EnsureRawValue(item))
 	}
 
 	return holder, nil
@@ -306,13 +311,13 @@ func (d *Decoder) readUntypedList(tag byte) (interface{}, error) {
 		it, err := d.ReadData()
 		if err != nil {
 			if err == io.EOF && isVariableArr {
-				continue
+				break // the 'Z' that ends the list
 			}
 			return nil, newCodecError("readUntypedList", err)
 		}
 
 		if isVariableArr {
-			aryValue = reflect.Append(aryValue, EnsureRawValue(it))
+			aryValue = reflect.Append(aryValue, listElem(aryValue.Type().Elem(), it))
 			holder.change(aryValue)
 		} else {
 			// a back-reference arrives as a reflect.Value: store what it refers to
